@@ -88,6 +88,7 @@ def run(ctx):
     dist = {"tests": {}, "suffixed": 0, "crlf": 0, "with_attrs": 0, "with_delimlike_inputs": 0, "with_wrong_expectations": 0,
             "written": 0, "not_written": 0, "wellformed_expectations": 0, "bytes_total": 0, "clauses_failed": {}}
     corr_viol = []
+    sx_total = sx_class = 0
     for line in out.split("\n"):
         if not line.strip():
             continue
@@ -105,6 +106,13 @@ def run(ctx):
         dist["with_wrong_expectations"] += int(kv.get("wrong", "0")) > 0
         dist["written" if kv.get("wrote") == "1" else "not_written"] += 1
         dist["bytes_total"] += int(kv.get("bytes", "0"))
+        sx_total += int(kv.get("sx", "0"))
+        sx_class += int(kv.get("sxclass", "0"))
+        if kv.get("sx") != kv.get("sxclass"):
+            corr_viol.append(("corr", "an S-expression printed by the runtime for an error-free tree is not a balanced token "
+                              "sequence (hypothesis class of format_normalize)",
+                              {"case": cid, "spec": specs.get(cid, ""), "result": {k: v for k, v in kv.items() if k != "model1"}},
+                              {"corr": "format-class"}, False))
         if n0 >= 2 and (int(kv.get("attrs", "0")) or int(kv.get("delimlike", "0")) or int(kv.get("wrong", "0"))):
             distinct.add(hashlib.sha1(specs.get(cid, cid).encode()).hexdigest())
         if len(samples) < 5 and evals % 101 == 7:
@@ -139,6 +147,9 @@ def run(ctx):
         ctx.violation(kind, what, payload, fingerprint=fp, found_input=found)
     total_bad = sum(corr.values())
     ctx.oblige("corr:parseFile=parse_tests", corr["parse0"] + corr["parse1"] == 0, "%d disagreements" % (corr["parse0"] + corr["parse1"]))
+    ctx.oblige("tie:printed-sexps-in-format_normalize-class", sx_total == sx_class,
+               "%d of %d S-expressions printed for error-free trees are balanced token sequences" % (sx_class, sx_total))
+    ctx.coverage["format_class"] = {"printed_error_free_sexps": sx_total, "in_theorem_class": sx_class}
     ctx.oblige("corr:updateFile=run_tests_at_path(update)", corr["upd1"] + corr["upd2"] == 0, "%d disagreements" % (corr["upd1"] + corr["upd2"]))
     ctx.coverage.update({
         "evaluations": evals, "distinct_nontrivial": len(distinct),
